@@ -160,6 +160,7 @@ class _WriteFile(object):
     def _commit(self):
         self.fs.files[self.path] = self.prefix + "".join(self.buf).encode("utf-8")
         self.fs.mutations += 1
+        self.fs.touch(self.path)
 
     def close(self):
         if self.closed:
@@ -204,6 +205,8 @@ class SimFS(object):
             self.files[posixpath.normpath(p)] = c.encode("utf-8") if isinstance(c, str) else bytes(c)
         self.dirs = set([ROOT] + [posixpath.normpath(d) for d in (dirs or [])])
         self.unreadable = set()
+        self.clock = 1000          # a logical clock for modification times: bumped by every change of a file
+        self.mtimes = {}
         self.faults = [dict(f, _left=1) for f in (faults or [])]
         self.actor = [dict(a, _left=1) for a in (actor or [])]
         self.calls = {}        # (op, path, mode) -> number of calls so far
@@ -240,6 +243,7 @@ class SimFS(object):
             self.files.pop(p, None)
         elif do in ("replace", "create"):
             self.files[p] = a.get("content", "").encode("utf-8")
+            self.touch(p)
         elif do == "unreadable":
             self.unreadable.add(p)
         else:
@@ -414,9 +418,25 @@ class SimFS(object):
         for name, fn in (("mkdir", mk), ("makedirs", mkdirs), ("remove", rm), ("unlink", rm), ("rename", mv),
                          ("replace", mv), ("rmdir", rmdir)):
             wrap(name, fn)
+        def _need(p):
+            q = posixpath.normpath(p)
+            if q not in fs.files and not fs.isdir(q):
+                raise _oserror("ENOENT", p)
+            return q
+
+        def sim_stat(path, *a, **k):
+            q = _need(path)
+            size = len(fs.files.get(q, b""))
+            mode = 0o040755 if q not in fs.files else 0o100644
+            t = fs.mtime(q)
+            return os.stat_result((mode, 1, 1, 1, 0, 0, size, t, t, t))
+
+        wrap("stat", sim_stat)
         self._saved_path = {}
         for name, fn in (("isdir", lambda p: fs.isdir(posixpath.normpath(p))),
-                         ("isfile", lambda p: posixpath.normpath(p) in fs.files)):
+                         ("isfile", lambda p: posixpath.normpath(p) in fs.files),
+                         ("getmtime", lambda p: fs.mtime(_need(p))),
+                         ("getsize", lambda p: len(fs.files.get(_need(p), b"")))):
             real = getattr(os.path, name)
             self._saved_path[name] = real
 
@@ -442,6 +462,13 @@ class SimFS(object):
     def __exit__(self, *a):
         self.uninstall()
         return False
+
+    def touch(self, path):
+        self.clock += 1
+        self.mtimes[posixpath.normpath(path)] = self.clock
+
+    def mtime(self, path):
+        return float(self.mtimes.get(posixpath.normpath(path), 1000))
 
     def text(self, path):
         data = self.files.get(posixpath.normpath(path))
